@@ -1,6 +1,7 @@
 """C16 — pattern and criteria matching follows its documented semantics safely."""
-from lib.core import Engine, Case, ROOT
-import os, re
+from lib.core import Engine, Case, ROOT, LEAN, split_cases, BuildError
+from concurrent.futures import ThreadPoolExecutor
+import os, re, subprocess
 
 PROP = 'C16'
 PROPS_MODULES = ['LA.Props.C16']
@@ -117,7 +118,60 @@ def rand_subject(rng, pat, alpha, maxlen):
     return out[:maxlen + 6]
 
 
-class Pm(Engine):
+class Par(Engine):
+    """Runs big case lists in several harness / driver processes at once (thorough tier)."""
+    workers = 8
+    par_threshold = 1500
+
+    def _chunks(self, cases):
+        k = max(1, min(self.workers * 4, len(cases) // 200))
+        n = (len(cases) + k - 1) // k
+        return [cases[i:i + n] for i in range(0, len(cases), n)]
+
+    def run_impl(self, exe, cases):
+        if len(cases) < self.par_threshold:
+            return super().run_impl(exe, cases)
+        env = dict(os.environ)
+        env.setdefault('ASAN_OPTIONS', 'detect_leaks=1:abort_on_error=0:exitcode=99:allocator_may_return_null=1')
+        env.setdefault('UBSAN_OPTIONS', 'print_stacktrace=1:halt_on_error=1')
+        env['LC_ALL'] = env['LANG'] = 'C.UTF-8'
+
+        def one(ch):
+            text = ''.join(f'#case {i}\n' + ''.join(o + '\n' for o in c.ops) for i, c in enumerate(ch))
+            r = subprocess.run([exe], input=text, stdout=subprocess.PIPE, stderr=subprocess.PIPE, text=True, env=env,
+                               timeout=self.timeout, errors='replace')
+            return split_cases(r.stdout, len(ch)), r.stderr[-4000:]
+        with ThreadPoolExecutor(self.workers) as ex:
+            res = list(ex.map(one, self._chunks(cases)))
+        return [x for r, _ in res for x in r], ''.join(e for _, e in res)[-8000:]
+
+    def run_model(self, cases, impl):
+        if len(cases) < self.par_threshold:
+            return super().run_model(cases, impl)
+        drv = os.path.join(LEAN, '.lake', 'build', 'bin', 'driver')
+        chunks, pos, jobs = self._chunks(cases), 0, []
+        for ch in chunks:
+            jobs.append((ch, impl[pos:pos + len(ch)])); pos += len(ch)
+
+        def one(job):
+            ch, im = job
+            lines = []
+            for i, c in enumerate(ch):
+                lines.append(f'#case {i}')
+                obs = im[i] if i < len(im) else []
+                for j, o in enumerate(c.ops):
+                    lines.append(o + '\t' + (obs[j] if j < len(obs) else ''))
+            r = subprocess.run([drv, self.name], input='\n'.join(lines) + '\n', stdout=subprocess.PIPE,
+                               stderr=subprocess.PIPE, text=True, timeout=self.timeout)
+            if r.returncode != 0:
+                raise BuildError('model driver failed: ' + r.stderr[-2000:])
+            return split_cases(r.stdout, len(ch))
+        with ThreadPoolExecutor(self.workers) as ex:
+            res = list(ex.map(one, jobs))
+        return [x for r in res for x in r]
+
+
+class Pm(Par):
     name = 'pm'
     repo_deps = ('libarchive/archive_pathmatch.c', 'libarchive/archive_pathmatch.h')
 
@@ -130,7 +184,7 @@ class Pm(Engine):
         return cs
 
     def gen(self, rng, tier):
-        n = 700 if tier == 'quick' else 30000
+        n = 1500 if tier == 'quick' else 30000
         for i in range(n):
             ops = []
             for _ in range(12):
@@ -171,9 +225,11 @@ class Pm(Engine):
             yield Case(f'rand{i}', ops)
         # small-scope enumeration: every pattern up to a length against every subject up to a length
         if tier == 'quick':
-            scopes = [(SMALL, 2, 3, 'nw')]
+            scopes = [(SMALL, 2, 3, 'nw'), (ALPHA, 2, 2, 'n')]
         else:
-            scopes = [(SMALL, 4, 3, 'nw'), (ALPHA, 3, 3, 'nw')]
+            # 9 symbols: 66 430 patterns x 820 subjects x 4 flag sets x 2 variants = 436 M evaluations;
+            # 13 symbols: 30 941 patterns x 2 380 subjects x 4 x 2 = 589 M
+            scopes = [(SMALL, 5, 3, 'nw'), (ALPHA, 4, 3, 'nw')]
         for alpha, pmax, smax, variants in scopes:
             ops = []
             for p in all_strings(alpha, pmax):
@@ -285,7 +341,7 @@ def pat_for(rng, path):
     return ustr(parts[-1] + '$')
 
 
-class Match(Engine):
+class Match(Par):
     name = 'match'
 
     def entry_op(self, rng, path=None, ref=None, owners=None):
@@ -306,10 +362,10 @@ class Match(Engine):
         return f'entry {v} {pu} {ms} {mn} {cset} {cs} {cn} {uid} {gid} {un} {gn}'
 
     def gen(self, rng, tier):
-        n = 500 if tier == 'quick' else 20000
+        n = 1200 if tier == 'quick' else 20000
         for i in range(n):
             ops = []
-            kind = rng.choice(['path', 'path', 'path', 'time', 'time', 'owner', 'all'])
+            kind = rng.choice(['path', 'path', 'path', 'time', 'time', 'exent', 'owner', 'all'])
             paths = [rand_path(rng) for _ in range(rng.choice([1, 2, 4]))]
             ref = owners = None
             if kind in ('path', 'all'):
@@ -340,6 +396,16 @@ class Match(Engine):
                         if rng.random() < 0.05:
                             fl = rng.choice([0, MT, EQUAL])
                         ops.append(f'exent {fl}')
+            if kind == 'exent':
+                # per-pathname records only: every (flag, relation) combination around one reference time
+                ref = (rng.choice([0, 100, -5]), rng.choice([0, 500, 999999999]))
+                for pth in paths:
+                    ops.append(self.entry_op(rng, pth, ref))
+                    fl = rng.choice([MT, CT, MT | CT]) | rng.choice([NEWER, OLDER, EQUAL, NEWER | EQUAL, OLDER | EQUAL, NEWER | OLDER, NEWER | OLDER | EQUAL])
+                    ops.append(f'exent {fl}')
+                if rng.random() < 0.3:      # overwrite one record
+                    ops.append(self.entry_op(rng, rng.choice(paths), ref))
+                    ops.append(f'exent {rng.choice([MT, CT]) | rng.choice([NEWER, OLDER, EQUAL])}')
             if kind in ('owner', 'all'):
                 owners = ([rng.choice([0, 5, 1000, -1, 2**40, 17, 18, 19, 3, 4]) for _ in range(rng.choice([0, 1, 3, 9, 20]))],
                           [rng.choice([0, 5, 100]) for _ in range(rng.choice([0, 0, 1, 2]))],
@@ -362,7 +428,7 @@ class Match(Engine):
                 if rng.random() < 0.03:
                     path = 'NULL'
                 ops.append(self.entry_op(rng, path, ref, owners))
-                q = {'path': 'path', 'time': 'time', 'owner': 'owner', 'all': 'all'}[kind]
+                q = {'path': 'path', 'time': 'time', 'exent': 'time', 'owner': 'owner', 'all': 'all'}[kind]
                 if rng.random() < 0.15:
                     q = rng.choice(['path', 'time', 'owner', 'all'])
                 ops.append('q ' + q)
